@@ -33,7 +33,10 @@ pub fn run(sh: &mut shell::Shell, cl: &CommandLine, cmd: &Command,
         // due to limitation of `parses::parser_line`,
         // `alias foo-bar='foo bar'` will become 'foo-bar=foo bar'
         // while `alias foo_bar='foo bar'` keeps foo_bar='foo bar'
-        let value = if cap[2].starts_with('"') || cap[2].starts_with('\'') {
+        // in the first form the quotes around the value are already gone:
+        // a quote at the start of the text then belongs to the value
+        let value = if tokens[1].0.is_empty()
+                && (cap[2].starts_with('"') || cap[2].starts_with('\'')) {
             tools::unquote(&cap[2])
         } else {
             cap[2].to_string()
